@@ -119,6 +119,11 @@ func newMemUniverse(rng *RNG, large bool) *memUniverse {
 	add("nomediatype-layer", img, ocispec.Manifest{MediaType: img, Config: bd(4), Layers: []ocispec.Descriptor{nomt}})
 	add("m3-layer3", img, ocispec.Manifest{MediaType: img, Config: bd(4), Layers: []ocispec.Descriptor{bd(5)}})
 	add("emptymt", "", []byte("x"))
+	// an index whose children are of media types the registry cannot look inside (a Docker schema 2
+	// manifest, an artifact of unknown type): they are referenced all the same
+	docker := add("docker-child", "application/vnd.docker.distribution.manifest.v2+json", []byte(`{"schemaVersion":2,"mediaType":"application/vnd.docker.distribution.manifest.v2+json"}`))
+	opq := memManifest{"opaque", mtOpaque, []byte("not json at all")}
+	add("i-foreign", idx, ocispec.Index{MediaType: idx, Manifests: []ocispec.Descriptor{md(docker), md(m1), md(opq)}})
 	// a valid document followed by something else is not a valid document
 	add("m1-trailing", img, append(append([]byte{}, m1.data...), []byte("}garbage")...))
 	add("m1-twice", img, append(append([]byte{}, m1.data...), m1.data...))
